@@ -43,6 +43,13 @@ def gen_args(rng):
         a["group_by_type"] = True
     if rng.random() < 0.25:
         a["json_dump"] = True
+    r = rng.random()
+    if r < 0.12:
+        a["file_path"] = rng.choice(["model.sql", "in/a.b.ddl", "/data/x.hql"])     # only names the dump file; dump stays False
+    elif r < 0.18:
+        a["dump"] = False
+        a["dump_path"] = "out"
+        a["file_path"] = "t.sql"
     return a
 
 
@@ -97,6 +104,34 @@ def run_history(ctx, case):
 
 
 def check_case(ctx, case):
+    if case.get("gen") in ("parse_from_file", "parser_settings"):
+        # replay of the file entry point: parse a small file in an empty cwd under the fs monitor
+        from simple_ddl_parser import parse_from_file
+        import shutil
+        d, scratch, cwd = tempfile.mkdtemp(prefix="vf_c14f_"), tempfile.mkdtemp(prefix="vf_c14p_"), os.getcwd()
+        try:
+            path = os.path.join(d, "x.sql")
+            open(path, "w").write("CREATE TABLE t (a int); -- c\n")
+            os.chdir(scratch)
+            before = fs.listing(d) | fs.listing(".")
+            settings = dict(case.get("settings") or {"silent": True})
+            snap = copy.deepcopy(settings)
+            with fs.Watch() as w:
+                try:
+                    parse_from_file(path, parser_settings=settings, **(case.get("args") or {}))
+                except Exception:
+                    pass
+            after = fs.listing(d) | fs.listing(".")
+            ctx.evaluated()
+            if w.events or before != after:
+                ctx.violation("file_side_effect", case, {"audit_events": w.events[:5], "changed": sorted(after ^ before)[:5]})
+            if settings != snap:
+                ctx.violation("argument_modified", case, {"after": settings})
+        finally:
+            os.chdir(cwd)
+            shutil.rmtree(d, ignore_errors=True)
+            shutil.rmtree(scratch, ignore_errors=True)
+        return
     if case.get("gen") == "xproc":
         ctx.notes.append("cross-process cases are reproduced by re-running the whole check with the same VERIF_SEED")
         return
@@ -173,19 +208,34 @@ def run_shard(ctx):
         ctx.obs["corpus_histories"] += 1
     # (3) parse_from_file must not modify its parser_settings argument
     from simple_ddl_parser import parse_from_file
+    import shutil
     d = tempfile.mkdtemp(prefix="vf_c14f_")
     try:
         path = os.path.join(d, "x.sql")
-        for j in range(10):
+        for j in range(10 if ctx.tier == "quick" else 60):
             with open(path, "w") as f:
                 f.write(gen_script(rng))
             settings = {"normalize_names": bool(j % 2), "silent": True}
             snap = copy.deepcopy(settings)
             ctx.evaluated()
+            args = {k: v for k, v in gen_args(rng).items() if k != "file_path"}
+            cwd = os.getcwd()
+            scratch = tempfile.mkdtemp(prefix="vf_c14p_")
+            os.chdir(scratch)
             try:
-                parse_from_file(path, parser_settings=settings, **gen_args(rng))
-            except Exception:
-                pass
+                before = fs.listing(d) | fs.listing(".")
+                with fs.Watch() as w:
+                    try:
+                        parse_from_file(path, parser_settings=settings, **args)
+                    except Exception:
+                        pass
+                after = fs.listing(d) | fs.listing(".")
+            finally:
+                os.chdir(cwd)
+                shutil.rmtree(scratch, ignore_errors=True)
+            ctx.obs["runs_under_fs_watch"] += 1
+            if w.events or before != after:
+                ctx.violation("file_side_effect", {"gen": "parse_from_file", "args": args}, {"audit_events": w.events[:5], "changed": sorted(after ^ before)[:5]})
             ctx.obs["argument_mutation_checks"] += 1
             if settings != snap:
                 ctx.violation("argument_modified", {"gen": "parser_settings", "settings": snap}, {"after": settings})
